@@ -67,6 +67,17 @@ def _sets(rnd, tier):
 			b = [i for i in range(U) if mask_b >> i & 1]
 			yield a, b
 	n = 400 if tier == 'quick' else 20000
+	tops = [2 ** 15 - 1, 2 ** 16 - 1, 2 ** 31 - 1, 2 ** 32 - 1, 2 ** 63 - 1, 2 ** 64 - 1, 50]
+	for _ in range(n):
+		# independent magnitudes for the two arrays, with values that collide modulo 2^16 / 2^32
+		ta, tb = rnd.choice(tops), rnd.choice(tops)
+		a = sorted(set(rnd.randrange(0, ta + 1) for _ in range(rnd.randrange(0, 12))) | set(rnd.sample(range(0, 40), rnd.randrange(0, 5))))
+		b = set(rnd.randrange(0, tb + 1) for _ in range(rnd.randrange(0, 12)))
+		for x in a[:3]:
+			for sh in (2 ** 16, 2 ** 32):
+				if x + sh <= tb and rnd.random() < .5:
+					b.add(x + sh)
+		yield [v for v in a if v <= ta], sorted(v for v in b if v <= tb)
 	for _ in range(n):
 		top = rnd.choice([2 ** 15 - 1, 2 ** 16 - 1, 2 ** 31 - 1, 2 ** 32 - 1, 2 ** 63 - 1, 2 ** 64 - 1, 50, 1000])
 		na, nb = rnd.randrange(0, 40), rnd.randrange(0, 40)
@@ -87,9 +98,9 @@ def bounded(tier, seed):
 	n = 0
 	failures, sample = [], []
 	for a, b in _sets(rnd, tier):
-		combos = list(itertools.product(DTYPES, DTYPES))
-		if max(a + b + [0]) > 5:
-			combos = [rnd.choice(combos) for _ in range(3)]
+		combos = [(x, y) for x, y in itertools.product(DTYPES, DTYPES) if fits(a, x) and fits(b, y)]
+		if max(a + b + [0]) > 5 and len(combos) > 6:
+			combos = rnd.sample(combos, 6)
 		for dta, dtb in combos:
 			if not fits(a, dta) or not fits(b, dtb):
 				continue
